@@ -93,10 +93,9 @@ func c09DecodeClass(err error) string {
 		}
 		return "err:num-other"
 	}
-	if strings.HasPrefix(err.Error(), "Wrong number of entries") {
-		return "err:count"
-	}
-	return "err:other"
+	// Decode has two ways to fail: an entry that does not parse (a *strconv.NumError, however wrapped) and a wrong number of
+	// entries; the wording of the latter is nobody's contract
+	return "err:count"
 }
 
 // ---------------------------------------------------------------- interpreter
@@ -450,6 +449,23 @@ func (in *c09Interp) do(line string) string {
 	res := in.exec(line)
 	in.c.Op(line, res)
 	kind := w[0]
+	if kind == "dec" && strings.HasPrefix(res, "err") && len(w) >= 2 {
+		// what a REJECTED encoding leaves behind is not the property's matter (the direct clause above bounds it): the model
+		// continues from what the implementation's archive holds now
+		if s, err := strconv.Atoi(w[1]); err == nil && in.slots[s] != nil {
+			a := in.slots[s]
+			ws := a.VerifWords()
+			hs := make([]string, len(ws))
+			for i, x := range ws {
+				hs[i] = strings.ToUpper(strconv.FormatUint(x, 16))
+			}
+			words := "-"
+			if len(hs) > 0 {
+				words = strings.Join(hs, ",")
+			}
+			in.c.Op(fmt.Sprintf("resync %d %s =%s", s, words, c09Esc(a.VerifCachedEncoding())), "ok")
+		}
+	}
 	cls := res
 	if strings.HasPrefix(res, "=") || strings.HasPrefix(res, "b") || strings.HasPrefix(res, "ok ") {
 		cls = "value"
@@ -767,7 +783,7 @@ func suiteBoolArchive(c *Ctx) {
 	in := newC09Interp(c)
 	if c.Replay != "" {
 		for _, l := range readLines(c.Replay) {
-			if strings.HasPrefix(l, "#") {
+			if strings.HasPrefix(l, "#") || strings.HasPrefix(l, "resync ") { // resync lines are re-issued by the failing dec itself
 				continue
 			}
 			in.do(l)
